@@ -85,8 +85,9 @@ def run(ctx):
             for ver in ([1, 9, 9], [0, 0, 0], [2, 0, 0], [2, 0, 1], [3, 0, 0], [255, 255, 255], [1, 255, 255]):
                 pj2 = dict(pj); pj2['version'] = ver
                 b2 = [(n, json.dumps(pj2, separators=(',', ':')).encode() if n == b'peppi.json' else c) for n, c in base]
-                k = 'v%d_%s' % (i, '_'.join(map(str, ver)))
-                rdc.append((k, [tarutil.build(b2).hex(), '-', '1'])); rinfo[k] = (cid, ver)
+                for ro in ('-', 's'):      # the format-version gate applies to both read modes
+                    k = 'v%d_%s_%s' % (i, '_'.join(map(str, ver)), ro.replace('-', 'n'))
+                    rdc.append((k, [tarutil.build(b2).hex(), ro, '1'])); rinfo[k] = (cid, ver)
             rdc.append(('base%d' % i, [tarutil.build(base).hex(), '-', '1'])); rinfo['base%d' % i] = cid
     if getattr(ctx, 'model_ok', True) and marc:
         mres = core.run_parallel(core.run_model, 'slpparch', marc, n=16)
@@ -118,6 +119,30 @@ def run(ctx):
         elif k.startswith('base'):
             if out[0] != 'OK':
                 corr.oracle_failures.append((k, 'rebuilt archive rejected: %s' % out[:2], {'mode': 'slppread', 'archive_hex': f[0]}))
+    # every archive the writer produces from an accepted game must be readable by the library's own reader, also for the deepest
+    # metadata nesting the .slp reader accepts (the JSON reader has its own recursion limit)
+    def nest(d):
+        m = {'x': 1}
+        for _ in range(d - 1):
+            m = {'n': m}
+        return m
+    deep = []
+    for d in (100, 126, 127, 128, 129):
+        r = synth.gen_wf(rng, (3, 16), nframes=1, gecko=0, metadata=None)
+        b = synth.emit(r)
+        b = b[:-1] + b'U\x08metadata{' + b'U\x01n{' * (d - 1) + b'U\x01xl\x00\x00\x00\x01' + b'}' * (d - 1) + b'}' + b'}'
+        deep.append(('deep%d' % d, [b.hex(), '-', rng.choice('nlz'), '-', '0']))
+    dres = core.run_parallel(R.run_pvh, 'slpp', deep, n=4, timeout_ms=60000)
+    for cid, f in deep:
+        corr.seen(cid + f[0][:32]); corr.count('deep_metadata_archives')
+        out = dres.get(cid) or ['?']
+        d = dump_dict(out)
+        if out[0].startswith('ERR'):
+            continue                      # the .slp reader refuses this depth: nothing to archive
+        if out[0] != 'OK' or not (d.get('slpp.write', '').startswith('OK')) or d.get('slpp.read') != 'OK' or d.get('same_game') != '1':
+            corr.oracle_failures.append((cid, 'metadata nested %s deep is accepted from .slp but the archive written from it is not read back as the same game: %s'
+                                         % (cid[4:], [l[:120] for l in out if l.startswith(('slpp.', 'same_game', 'PANIC', 'ABORT', 'HANG', 'err.'))][:3]),
+                                         {'mode': 'slpp', 'fields': [f[0][:2000] + '...'] + f[1:], 'replay_hex': f[0], 'rerun': 'pvh slpp <file: x <replay_hex> - %s - 0>' % f[2]}))
     corr.sample({'entries': ['peppi.json', 'metadata.json', 'start.json', 'start.raw', '...'], 'compression': cases[0][1][2]})
     corr.sample({'unknown_entry_names': [u.decode() for u in UNKNOWN[:4]]})
     return corr
